@@ -12,7 +12,7 @@ CHECKS = {
    "Trusted: seed corpus and field maps of the harness. Not covered: byte strings outside the neighbourhoods, BLF input, FIBEX/JSON plugin configurations other than the repository's.", "4 C03"),
  "C17": ("mc-seq", "model_checking",
    "exhaustive enumeration of transfer shapes x single faults x interleavings x configurations through the real file-transfer plugin API, file-system sandbox scan as oracle",
-   "Every content length 1..9 x package size x single fault (drop / duplicate at every later position / swap / grow / shrink a package, drop FLST, drop FLFI) x 10 configs x both byte orders, with unrelated and near-miss messages at every position; 1-3 concurrent transfers differing in exactly one of serial / ECU / lifecycle under every interleaving; 12 announced file names x globs x pre-existing entries (file, directory, dangling symlink, symlink to file) x directory states; hostile FLST size announcements (>= 64 MiB products in a child process). Oracle: complete iff all packages in order (duplicates tolerated), saved (through the tree item by occurrence and through the item of the 'Sorted by name' view) and auto-saved bytes equal the original, nothing damaged saved as complete, sandbox scan shows no write outside the configured directory and no overwritten entry.",
+   "Every content length 1..9 x package size x single fault (drop / duplicate at every later position / swap / grow / shrink a package, drop FLST, drop FLFI) x 10 configs x both byte orders, with unrelated and near-miss messages at every position; 1-3 concurrent transfers differing in exactly one of serial / ECU / lifecycle under every interleaving (also with the first transfer's announcement or end marker repeated); 12 announced file names x globs x pre-existing entries (file, directory, dangling symlink, symlink to file) x directory states; hostile FLST size announcements (>= 64 MiB products in a child process). Oracle: complete iff all packages in order (duplicates tolerated), saved (through the tree item by occurrence and through the item of the 'Sorted by name' view) and auto-saved bytes equal the original, nothing damaged saved as complete, sandbox scan shows no write outside the configured directory and no overwritten entry.",
    "Trusted: harness verbose-payload encoder and sandbox scanner. Not covered: multiple faults per transfer, a repeated package number with different bytes, file-system races.", "4 C17"),
  "C14": ("mc-cli", "exploration",
    "full product of convert option combinations x input-file permutations against the freshly built adlt binary, reference selection computed in the harness",
@@ -28,7 +28,7 @@ CHECKS = {
    "Trusted: harness tags in payloads. The documented single-source shortcut (own indices) is judged by its documentation.", "4 C09"),
  "C10": ("mc-seq", "exploration",
    "exhaustive enumeration of message streams x lifecycle tables x windows x minimum delays on the real buffer_sort_messages, cases classified by the property's premise",
-   "All streams up to length 2-6 over per-family alphabets (lifecycle id incl. unknown, reception step incl. -1 s, absolute timestamps or lateness grid bracketing the minimum delays, normal/control request) x windows {1,3,255} (edges 1-4) x minimum delays {0,1 s,20 s} x 4 lifecycle tables, plus deviation-bounded long streams. O1 on every case: output is a permutation of the input (full message equality). O2 on the cases the generator classifies as satisfying the premise: stable order by (calculated time, original position). Every case is counted in exactly one class (premise holds / reception decreases / delay above minimum / undefined for unknown lifecycle).",
+   "All streams up to length 2-6 over per-family alphabets (lifecycle id incl. unknown, reception step incl. -1 s, absolute timestamps or lateness grid bracketing the minimum delays, normal/control request) x windows {1,3,255} (edges 1-4) x minimum delays {0,1 s,20 s} x 4 lifecycle tables x index modes (position / all 0 / per-ECU numbering, i.e. duplicate indices as merged or index-less sources produce them), plus deviation-bounded long streams. O1 on every case: output is a permutation of the input (full message equality). O2 on the cases the generator classifies as satisfying the premise: stable order by (calculated time, original position). Every case is counted in exactly one class (premise holds / reception decreases / delay above minimum / undefined for unknown lifecycle).",
    "Trusted: harness-side calculated-time model. Not covered: a lifecycle table changing while sorting, window size 0.", "4 C10"),
  "C19": ("mc-seq", "exploration",
    "exhaustive enumeration of ordered plugin subsets x message pool / tuples / payload prefixes on the real plugin chain; id-population sweep and lifecycle-stream families through the real anonymiser + detector",
@@ -48,11 +48,11 @@ CHECKS = {
    "Trusted: the harness' spec evaluator. The --eac text parser itself is exercised through the binary under C14.", "4 C11"),
  "C12": ("mc-seq", "exploration",
    "exhaustive enumeration of filter tuples x message stream on both set-matching implementations against the statement's rule",
-   "All ordered tuples of <= 4 (thorough 6) filters from a 19-filter pool (every kind x enabled/disabled x plain/negated, overlapping criteria) are run through filter_as_streams over a real channel, match_filters behind StreamContext::from and the remote stream path process_stream_new_msgs (stream and query, chunk limits 1/2/unbounded) on a 30-message stream: selection, messages unchanged and in order, passed+filtered = received, event-AND clause, agreement of the two implementations.",
+   "All ordered tuples of <= 4 (thorough 6) filters from a 19-filter pool (every kind x enabled/disabled x plain/negated, overlapping criteria) are run through filter_as_streams over a real channel, match_filters behind StreamContext::from and the remote stream path process_stream_new_msgs (stream and query, chunk limits 1/2/unbounded) on a 30-message stream, and 324 paged stream_search sessions run on the real server handlers through the in-binary driver (union of pages = matching stream positions): selection, messages unchanged and in order, passed+filtered = received, event-AND clause, agreement of the two implementations.",
    "Trusted: spec evaluator shared with C11. The export plugin reuses match_filters and is not driven separately.", "4 C12"),
  "C15": ("mc-remote", "model_checking",
    "explicit-state BFS over command histories (dedup on canonical session state), every transition executed on the real remote handlers via the cfg-guarded in-binary driver; reference session model as oracle",
-   "Breadth-first search from the initial state (depth 4 quick / 6 thorough), from 6 prepared non-initial states over a 57-symbol alphabet, and two deeper searches (depth 4/3 quick, 6/5 thorough, own seen-set) over the 10 session-flow commands (pause/resume/stream/query/stop/window change/ticks) from a drained one-pass and a drained collect-all session; plus close under back-pressure (700k / 1.8M-message file, pipeline blocked on its full channels) and (thorough) a TCP conformance replay of explored histories against `adlt remote` of valid, malformed, out-of-order and mistyped commands and message-arrival ticks; every transition re-executes the history on process_incoming_text_message / process_file_context inside the adlt binary (in-memory websocket). A reference session model decides: one reply frame of the right form per command and none on ticks, no panic, reply classes for open/close/pause/resume/stream/stop/change-window and for stale/never-issued/non-numeric ids, fresh ids, open flag and stream set consistent with the replies, frames only for live streams, every step (incl. close) returns within the watchdog.",
+   "Breadth-first search from the initial state (depth 4 quick / 6 thorough), from 7 prepared non-initial states (incl. a session opened with two plugins of the same name and one without command support) over a 59-symbol alphabet, and two deeper searches (depth 4/3 quick, 6/5 thorough, own seen-set) over the 10 session-flow commands (pause/resume/stream/query/stop/window change/ticks) from a drained one-pass and a drained collect-all session; plus close under back-pressure (700k / 1.8M-message file, pipeline blocked on its full channels) and (thorough) a TCP conformance replay of explored histories against `adlt remote` of valid, malformed, out-of-order and mistyped commands and message-arrival ticks; every transition re-executes the history on process_incoming_text_message / process_file_context inside the adlt binary (in-memory websocket). A reference session model decides: one reply frame of the right form per command and none on ticks, no panic, reply classes for open/close/pause/resume/stream/stop/change-window and for stale/never-issued/non-numeric ids, fresh ids, open flag and stream set consistent with the replies, frames only for live streams, every step (incl. close) returns within the watchdog.",
    "Trusted: the driver hook (verif_driver.rs; 3 inserted statements in process_file_context, inert unless armed), the abstraction of the socket event loop by explicit ticks, the dedup assumption stated in the evidence. Not covered: socket I/O errors, the TCP accept path (thorough replays explored histories over a real websocket).", "4 C15"),
  "C08": ("mc-seq", "exploration",
    "exhaustive enumeration of ground-truth boot traces (parameters x permutations x interleavings) on the real lifecycle stage",
@@ -64,7 +64,7 @@ CHECKS = {
    "Trusted: shuttle's modelling of mpsc channels/sleep/spawn/join; adlt built with cfg adlt_verif_sched (channel import switch only). Not covered: weak-memory effects, production channel capacities, schedules beyond the bounds.", "4 C13"),
  "C01": ("mc-seq", "exploration",
    "exhaustive enumeration of a message-shape x garbage x framing product on the real DltMessageIterator against an independent byte builder",
-   "Every stream of the stated finite product (all 32 header-flag sets, payload sizes incl. maximum, id/counter variants, 12 garbage lengths x 8 contents before/between/after, both framings, singles / all ordered shape pairs / core triples; and msg-garbage-msg-msg-msg streams with every garbage length 0..8300 (thorough 16584) read through the real LowMarkBufReader(8 KiB, low mark 4 KiB) over sources with full, 5000-byte (thorough also 4096/1000/1-byte) reads) is parsed by the real iterator and compared field by field with an independently written builder, incl. the skipped/processed counters. Coverage statement for the product, not for all byte values.",
+   "Every stream of the stated finite product (all 32 header-flag sets, payload sizes incl. maximum, id/counter variants, 12 garbage lengths x 8 contents before/between/after, both framings, singles / all ordered shape pairs / core triples; and msg-garbage-msg-msg-msg streams with every garbage length 0..8300 (thorough 16584) read through the real LowMarkBufReader(8 KiB, low mark 4 KiB) over sources with full, 5000-byte (thorough also 4096/1000/1-byte) reads, with small messages and with 3-3.9 KB messages close to the low mark) is parsed by the real iterator and compared field by field with an independently written builder, incl. the skipped/processed counters. Coverage statement for the product, not for all byte values.",
    "Trusted: the harness' byte builder and the marker scanner that enforces the property's premise. Not covered: payload/garbage byte values outside the pattern sets.", "4 C01"),
  "C02": ("mc-seq", "exploration",
    "exhaustive enumeration of parsed-message shapes through to_write / re-parse / to_write",
